@@ -188,6 +188,12 @@ private:
       transportConfig.clientTls.enabled = true;
       transportConfig.clientTls.defaultMode = TlsMode::Client;
       transportConfig.clientTls.verifyPeer = _tlsConfig.verifyPeer;
+      // Honour the rest of the TLS configuration: without the CA file the client
+      // silently verified against the system roots instead of the configured
+      // (e.g. private / pinned) anchor, and never presented its certificate.
+      transportConfig.clientTls.caFile = _tlsConfig.caFile;
+      transportConfig.clientTls.certFile = _tlsConfig.clientCertFile;
+      transportConfig.clientTls.keyFile = _tlsConfig.clientKeyFile;
 
       _transport = Transport::tcp(transportConfig); // HTTP client is TCP (S-3: shared_ptr factory)
       auto startResult = _transport->start();
